@@ -79,7 +79,7 @@ var asciiRest = asciiFirst + "0123456789"
 var mbLetters = []string{"é", "ñ", "ü", "Ж", "я", "ポ", "ケ", "漢", "字", "λ", "ß", "𝒳"}
 var strayASCII = []string{"@", "$", ";", "&", "|", "/", "-", ".", "?", "%", "+", "'", "\\", "~", "^"}
 var strayMB = []string{"→", "€", "♥", "…", "¿", "★", "😀", "§", "«"}
-var prefixes = []string{"ascii", "braille", "custom", "é", "utf8_ポ", "a1", "_s"}
+var prefixes = []string{"ascii", "braille", "custom", "é", "utf8_ポ", "a1", "_s", "text", "if", "format", "raw", "const"}
 
 func isWordRune(r rune) bool { return r == '_' || unicode.IsLetter(r) || unicode.IsDigit(r) }
 
